@@ -70,6 +70,12 @@ CLAIMED = {
             "input; one-update lemma (strict alarm implies loose alarm; equal state while the loose one is silent) from an "
             "arbitrary state for the scalar detectors and along bounded histories for ADWIN/LFR/kdq/NNDVI/HDM; ADWIN epsilon-cut "
             "monotonicity in delta as a kernel lemma; warning-threshold half likewise"),
+    "C19": ("DESIGN.md 7/C19",
+            "the k-fold reference summary (sklearn) is replaced by arbitrary symbolic statistics; oracle accuracy arbitrary in "
+            "[0,1]; deterministic stub classifier; margin signal arbitrary 0/1 through the public hook",
+            "symbolic execution of the real MD3 update/give_oracle_label/set_reference/reset with z3 over all call sequences up "
+            "to the bound (operation choice, signals, statistics, sensitivity, required label count symbolic) against the "
+            "protocol state machine of the statement, with complete-state equality around refused calls"),
     "C13": ("DESIGN.md 7/C13",
             "members modelled as objects exposing drift_state; parameters on their documented domains; z3 LIA; CPython",
             "symbolic execution of election.py with z3: all vote patterns for n<=5/6 members with unbounded integer "
